@@ -654,6 +654,44 @@ def run(tier, seed):
                                             "case": {"scenario": {k: scn[k] for k in ("name", "mode", "items", "files", "argv", "cfgs") if k in scn}, "how": f"tsan threads={n}"}})
                 tsan_info = {"ran": True, "runs": ran, "distinct_reports": len(reports)}
                 counters["tsan.runs"] = ran
+        # ---------------- (d) valgrind memcheck over the release binary (thorough): invalid reads / writes /
+        # uses of uninitialised memory in the process with its worker threads; leaks are not judged
+        memcheck_info = {"ran": False}
+        if not quick:
+            import shutil
+            if shutil.which("valgrind") is None:
+                out["inconclusive"] += 1
+                out["inconclusive_notes"].append("memcheck: valgrind not found")
+            else:
+                mrng = clilib.Rng(4242)
+                runs = 0
+                errs = []
+                for mode, n in (("check", 4), ("write", 8), ("write", 1)):
+                    t = with_mode(big_tree(mrng, 36, ref, "memcheck", configured=True), mode)
+                    t["items"] = [[nm, c] for nm, c in t["items"] if c != "C"]
+                    t["files"] = {nm: v for nm, v in t["files"].items() if not nm.endswith("_C.lua")}
+                    with clilib.Scratch(prefix="sv-c19-vg-") as sc:
+                        for nm, c in t["files"].items():
+                            sc.write(nm, L.dec(c))
+                        args = ["valgrind", "-q", "--error-exitcode=99", "--leak-check=no", clilib.STYLUA] + (["--check"] if mode == "check" else []) + ["--num-threads", str(n), "--"] + t["argv"]
+                        try:
+                            p = subprocess.run(args, cwd=sc.root, env=sc.env({}), capture_output=True, timeout=600)
+                        except subprocess.TimeoutExpired:
+                            out["inconclusive"] += 1
+                            out["inconclusive_notes"].append("memcheck: timeout")
+                            continue
+                    runs += 1
+                    out["evaluations"] += 1
+                    if p.returncode == 99 or b"== Invalid" in p.stderr or b"uninitialised" in p.stderr:
+                        first = [l for l in p.stderr.decode("utf-8", "replace").splitlines() if "==" in l][:12]
+                        kind = "invalid-access" if b"Invalid" in p.stderr else "uninitialised" if b"uninitialised" in p.stderr else "error"
+                        errs.append((kind, mode, n, first))
+                for kind, mode, n, first in errs[:3]:
+                    out["findings"].append({"oracle": "valgrind-memcheck", "signature": "C19:memcheck:" + kind,
+                                            "detail": f"valgrind memcheck reports an error ({mode}, --num-threads {n}): {first}",
+                                            "case": {"scenario": {"name": "memcheck", "mode": mode, "items": [], "files": {}, "argv": []}, "how": f"valgrind threads={n}"}})
+                memcheck_info = {"ran": True, "runs": runs, "reports": len(errs)}
+                counters["memcheck.runs"] = runs
         out["extra_coverage"] = {
             "exhaustive": all(v["exhaustive"] for v in per_scn.values()),
             "exhaustive_scope": "leg (a): all schedule prefixes at the granularity of hook H3 for the listed scenarios",
@@ -665,6 +703,7 @@ def run(tier, seed):
             "scenarios": per_scn,
             "sweep": {k[6:]: v for k, v in counters.items() if k.startswith("sweep.")},
             "tsan": tsan_info,
+            "memcheck": memcheck_info,
         }
         out["items_total"] = len(scns) + len(jobs)
     finally:
